@@ -202,8 +202,22 @@ def cross_call_memos(fi):
             bound = {x.id for c in ast.walk(V) if isinstance(c, ast.comprehension) for x in ast.walk(c.target) if isinstance(x, ast.Name)}
             deps = {x.id for x in ast.walk(V) if isinstance(x, ast.Name)} - bound - {x.id for x in ast.walk(K) if isinstance(x, ast.Name)} \
                 - {x.id for x in ast.walk(t.left) if isinstance(x, ast.Name)} - {'self', 'set', 'frozenset', 'tuple', 'next', 'None', 'len', 'sorted', 'list'}
-            resets = [st for st in ast.walk(fi.node) if isinstance(st, ast.Assign) and any(U(x) == 'self.' + X for x in st.targets)]
-            verdict = (False, 'self.%s is never emptied: entries computed from `%s` in an earlier call answer for the current one' % (X, sorted(deps)))
+            def assigns_attr(st, attr):
+                """does the assignment bind self.<attr> (alone or as an element of a tuple target)?  -> the bound value or None"""
+                if not isinstance(st, ast.Assign):
+                    return None
+                for tg in st.targets:
+                    if U(tg) == 'self.' + attr:
+                        return st.value
+                    if isinstance(tg, (ast.Tuple, ast.List)) and isinstance(st.value, (ast.Tuple, ast.List)) and len(tg.elts) == len(st.value.elts):
+                        for a_, b_ in zip(tg.elts, st.value.elts):
+                            if U(a_) == 'self.' + attr:
+                                return b_
+                return None
+            resets = [st for st in ast.walk(fi.node) if assigns_attr(st, X) is not None]
+            id_keyed = any(isinstance(c, ast.Call) and U(c.func) == 'id' for c in ast.walk(K))
+            verdict = (False, 'self.%s is never emptied: entries computed from `%s` in an earlier call answer for the current one%s'
+                       % (X, sorted(deps), ' (the key is an id(): it names an object only while that object is alive and unchanged)' if id_keyed else ''))
             for r in resets:
                 par = getattr(r, '_parent', None)
                 if par is fi.node:
@@ -213,7 +227,7 @@ def cross_call_memos(fi):
                     # `if not (A and SNAP == Y)` / `if SNAP != Y`
                     snaps = []
                     for c in ast.walk(par.test):
-                        if isinstance(c, ast.Compare) and len(c.ops) == 1 and isinstance(c.ops[0], (ast.Eq, ast.NotEq)):
+                        if isinstance(c, ast.Compare) and len(c.ops) == 1 and isinstance(c.ops[0], (ast.Eq, ast.NotEq, ast.Is, ast.IsNot)):
                             l, r_ = c.left, c.comparators[0]
                             for a, b in ((l, r_), (r_, l)):
                                 sn = None
@@ -222,15 +236,16 @@ def cross_call_memos(fi):
                                     sn = a.args[1].value
                                 elif isinstance(a, ast.Attribute) and U(a.value) == 'self':
                                     sn = a.attr
-                                if sn is not None and isinstance(b, ast.Name):
-                                    snaps.append((sn, b.id))
+                                if sn is not None and (isinstance(b, ast.Name) or (isinstance(b, ast.Attribute) and U(b.value) == 'self')) and U(b) != 'self.' + str(sn):
+                                    snaps.append((sn, U(b)))
                     kept = [(sn, y) for sn, y in snaps
-                            if any(isinstance(st, ast.Assign) and any(U(x) == 'self.' + sn for x in st.targets) and U(st.value) == y
-                                   and getattr(st, '_parent', None) is fi.node for st in ast.walk(fi.node))]
+                            if any(assigns_attr(st, sn) is not None and U(assigns_attr(st, sn)) == y for st in ast.walk(fi.node))]
                     covered = {y for sn, y in kept}
-                    if kept and deps <= covered:
+                    if id_keyed and not any(y.startswith('self.') for y in covered):
+                        kept = []          # an id()-keyed table is only meaningful while the per-call objects it was built for are alive
+                    if kept and deps <= covered | {y for y in deps if False}:
                         verdict = (True, 'emptied unless the stored snapshot `self.%s` equals the current `%s`, which is all the entries depend on besides the key'
-                                   % (kept[0][0], kept[0][1]))
+                                   % (kept[0][0], kept[0][1]), [sn for sn, y in kept])
                     else:
                         verdict = (False, 'self.%s is emptied only when `%s` holds; its entries depend on %s, of which no snapshot is compared: a later call '
                                    'with other cliques reuses stale entries' % (X, U(par.test)[:80], sorted(deps)))
@@ -685,9 +700,16 @@ class Normaliser:
             for ch in ast.iter_child_nodes(n):
                 ch._parent = n
         try:
-            for X, (valid, why) in cross_call_memos(probe).items():
-                if valid:
+            for X, verdict_ in cross_call_memos(probe).items():
+                if verdict_[0]:
                     local_dicts.add('self.' + X)
+            # tables judged valid in the (source) method that owns them - e.g. a helper that has been inlined here
+            if self.fi.cls is not None:
+                for q, other in self.module.funcs.items():
+                    if other.cls is not None and other.cls.name == self.fi.cls.name and q.count('.') == 1:
+                        for X, verdict_ in cross_call_memos(other).items():
+                            if verdict_[0]:
+                                local_dicts.add('self.' + X)
         except Exception:
             pass
         if not local_dicts:
@@ -846,6 +868,7 @@ class Normaliser:
         self.memo_issues = []
         self.dememoise(node)
         node.body = self.block(node.body, {}, (self.fi.qualname,))
+        self.dememoise(node)          # memo tables that came in with inlined helpers
         self.split_paths(node)
         ast.fix_missing_locations(node)
         for n in ast.walk(node):
